@@ -29,6 +29,7 @@ import (
 	"crypto/sha256"
 	"encoding/base64"
 	"encoding/hex"
+	"flag"
 	"fmt"
 	"os"
 	"runtime/debug"
@@ -86,19 +87,21 @@ func (c *collector) add(sig, msg, desc string, b []byte) {
 func short(err error) string {
 	s := err.Error()
 	s = strings.TrimPrefix(s, "tcp transport: receive: ")
-	if i := strings.Index(s, ": "); i >= 0 && strings.HasPrefix(s, "json: error calling") {
-		s = s[i+2:]
+	for { // keep the innermost "X for type T: cause" of nested marshalling errors
+		i := strings.Index(s, "json: error calling ")
+		if i < 0 {
+			break
+		}
+		s = s[i+len("json: error calling "):]
 	}
 	if i := strings.IndexAny(s, "'\""); i >= 0 {
 		s = s[:i]
 	}
-	if len(s) > 60 {
-		s = s[:60]
+	if len(s) > 90 {
+		s = s[:90]
 	}
-	return strings.ReplaceAll(strings.TrimSpace(s), " ", "-")
+	return strings.ReplaceAll(strings.ReplaceAll(strings.TrimSpace(s), ": ", ":"), " ", "-")
 }
-
-var nlByte = []byte{'\n'}
 
 // evaluate applies the oracle to one input; it reports whether the input was
 // non-trivial (accepted by some path, or panicked).
@@ -274,6 +277,7 @@ type job struct {
 }
 
 func main() {
+	pairFlag := flag.Int("pair-seeds", 0, "number of smallest seeds that get ordered mutation pairs (0: tier default)")
 	r := sx.New("C02", "exploration",
 		"an input is non-trivial when some decoder path accepted it (returned an envelope) or panicked; distinct by input bytes",
 		[]string{"byte-level coverage-guided fuzzing (clause b of the quantifier) is a different family and is not used; the structural enumeration is its exhaustive counterpart",
@@ -296,6 +300,9 @@ func main() {
 	pairSeeds, catSeeds := 120, 60
 	if r.Thorough() {
 		pairSeeds, catSeeds = 260, len(sd)
+	}
+	if *pairFlag > 0 {
+		pairSeeds = *pairFlag
 	}
 	if pairSeeds > len(sd) {
 		pairSeeds = len(sd)
